@@ -140,6 +140,14 @@ def gen_scan(r, nbuild):
             ops.append("put 1 %s %d %s 0 %d" % (G.H(k), c, G.H(G.gen_value(r, big=False)), G.gen_level(r)))
         else:
             ops.append("del 1 %s %d" % (G.H(k), c))
+    # sibling databases created / destroyed after the records exist (their headers neighbour this one in the chain)
+    if r.random() < 0.6:
+        ops.append("db 2 %d" % r.choice(G.FLAG_COMBOS))
+        if r.random() < 0.5:
+            ops.append("db 3 %d" % r.choice(G.FLAG_COMBOS))
+            ops.append("dbdestroy 2")
+        if r.random() < 0.3:
+            ops += ["close", "open %d 0 0" % r.randrange(2), "db 1 %d" % fl]
     ops.append("cur 0 open 1 bf")
     for _ in range(len(pool) + 2):
         ops += ["cur 0 to next", "cur 0 get"]
@@ -205,7 +213,7 @@ def run(ctx):
     h = C.build_harness(impl, *c01.HARNESS[:2], exclude=c01.HARNESS[2])
     drv = C.drv_path() if drv_ok else None
     explore(ctx, h, drv, 120 if ctx.tier == "quick" else 2000, "main")
-    if ctx.proof_broken or ctx.corr_broken:
+    if (ctx.proof_broken or ctx.corr_broken) and not ctx.violations:
         for i in range(3):
             explore(ctx, h, drv, 150, "search%d" % i)
 
